@@ -756,7 +756,7 @@ func c05Lab(t *testing.T) {
 	if os.Getenv("VERIF_RACE") != "" {
 		return
 	}
-	V.Require("lab: rotation over real backends", "lab: a backend answered a request without a To tag", "lab: tag-less request re-using the Call-ID and From tag of an earlier one")
+	V.Require("lab: requests of pinned dialogs between the unpinned ones", "lab: rotation over real backends", "lab: a backend answered a request without a To tag", "lab: tag-less request re-using the Call-ID and From tag of an earlier one")
 	var svcs []*stdSvc
 	for _, v := range []stdVariant{{Pool: 1}, {Pool: 3}, {Pool: 6}} {
 		s, err := newStdSvc(v)
@@ -786,7 +786,30 @@ func c05Lab(t *testing.T) {
 		// and whatever tag-less answers (100 Trying, a 401 without To tag) the
 		// backends gave to earlier ones.
 		var callIDs []string
+		// Now and then a backend answers an INVITE with a 2xx that carries a To tag:
+		// a dialog, pinned to it. Requests of such dialogs pass between the unpinned
+		// ones; they go where their dialog lives (C04's subject) and have no part in
+		// the rotation - the unpinned requests around them rotate as strictly as ever.
+		type pinnedDlg struct{ callID, toTag string }
+		var dialogs []pinnedDlg
 		for i := 0; i < n; i++ {
+			if len(dialogs) > 0 && rapid.IntRange(0, 2).Draw(rt, "a request of a pinned dialog passes first") == 0 {
+				d := dialogs[rapid.IntRange(0, len(dialogs)-1).Draw(rt, "which dialog")]
+				m := rapid.SampledFrom([]string{"ACK", "INFO", "BYE", "UPDATE", "INVITE"}).Draw(rt, "in-dialog method")
+				w := []byte(fmt.Sprintf("%s sip:svc.test SIP/2.0\r\nVia: SIP/2.0/UDP %s:5060;branch=z9hG4bK%s\r\nFrom: <sip:a@b>;tag=1\r\nTo: <sip:svc@nomatch.example>;tag=%s\r\nCall-ID: %s\r\nCSeq: %d %s\r\nContent-Length: 0\r\n\r\n", m, ua.ip, s.nextID("c05d-"), d.toTag, d.callID, 100+i, m))
+				s.in.expect(w)
+				send(w)
+				rs, err := s.in.settle(send, 1)
+				if _, lost := err.(labLost); lost {
+					failf(rt, "%v", err)
+				} else if err != nil {
+					V.HarnessError(rt, "%v", err)
+				}
+				if got := labMessages(rs); len(got) != 1 || !s.isBackendOf(got[0].ep, entry, got[0].tcp != nil) {
+					failf(rt, "a request of a pinned dialog must reach exactly one backend; receptions:\n%s", labDescribe(got))
+				}
+				V.Class("lab: requests of pinned dialogs between the unpinned ones")
+			}
 			id := s.nextID("c05-")
 			callID, method := id, rapid.SampledFrom([]string{"OPTIONS", "OPTIONS", "INVITE", "INVITE", "MESSAGE", "CANCEL", "REGISTER"}).Draw(rt, "method")
 			if len(callIDs) > 0 && rapid.IntRange(0, 2).Draw(rt, "Call-ID and From tag of an earlier request") == 0 {
@@ -812,7 +835,20 @@ func c05Lab(t *testing.T) {
 			b := fmt.Sprintf("%s:%d", got[0].ep.ip, got[0].ep.port)
 			seq = append(seq, b)
 			counts[b]++
-			if got[0].tcp == nil && rapid.IntRange(0, 2).Draw(rt, "the backend answers without a To tag") == 0 {
+			if got[0].tcp == nil && method == "INVITE" && callID == id && rapid.IntRange(0, 2).Draw(rt, "the backend answers 200 with a To tag") == 0 {
+				resp := buildResponse(got[0].msg, 200, "OK", "t"+id, "")
+				bep := got[0].ep
+				bsend := func(x []byte) error { return bep.sendUDP(l.Addr, l.UDPPort, x) }
+				s.in.expect(resp)
+				bsend(resp)
+				if _, err := s.in.settle(bsend, 1); err != nil {
+					if _, lost := err.(labLost); lost {
+						failf(rt, "%v", err)
+					}
+					V.HarnessError(rt, "%v", err)
+				}
+				dialogs = append(dialogs, pinnedDlg{callID, "t" + id})
+			} else if got[0].tcp == nil && rapid.IntRange(0, 2).Draw(rt, "the backend answers without a To tag") == 0 {
 				code, reason := 100, "Trying"
 				if rapid.Bool().Draw(rt, "401") {
 					code, reason = 401, "Unauthorized"
